@@ -229,3 +229,64 @@ func ZZ_C12_H2() {
 		zz.Assert("status-405", ctx.Response.StatusCode() == 405)
 	}
 }
+
+// ZZ_C12_H3: sibling groups. Middleware is attached with several separate Use calls (so handler
+// slices have spare capacity), two sibling groups are derived from the same parent without own
+// handlers, each gets its own middleware afterwards; a request to either group must run the
+// parent's middleware, then that group's own middleware, then the route handler - never the
+// sibling's.
+func ZZ_C12_H3() {
+	nUse := zz.Range("engineUses", 1, 4)
+	parentDepth := zz.Range("parentDepth", 0, 1)
+	target := zz.Choose("target", 2)
+	var tr []int
+	mk := func(id int) app.HandlerFunc {
+		return func(c context.Context, ctx *app.RequestContext) {
+			tr = append(tr, id)
+			ctx.Next(c)
+		}
+	}
+	e := zzNewEngine()
+	var want []int
+	for i := 0; i < nUse; i++ {
+		e.Use(mk(100 + i))
+		want = append(want, 100+i)
+	}
+	parent := &e.RouterGroup
+	prefix := ""
+	if parentDepth == 1 {
+		parent = parent.Group("/p")
+		prefix = "/p"
+		for i := 0; i < zz.Range("parentUses", 0, 3); i++ {
+			parent.Use(mk(150 + i))
+			want = append(want, 150+i)
+		}
+	}
+	ga := parent.Group("/a")
+	gb := parent.Group("/b")
+	ga.Use(mk(201))
+	gb.Use(mk(202))
+	ga.GET("/r", mk(301))
+	gb.GET("/r", mk(302))
+	ctx := app.NewContext(0)
+	ctx.Request.SetHost("h")
+	ctx.Request.Header.SetMethod("GET")
+	if target == 0 {
+		ctx.Request.SetRequestURI(prefix + "/a/r")
+		want = append(want, 201, 301)
+	} else {
+		ctx.Request.SetRequestURI(prefix + "/b/r")
+		want = append(want, 202, 302)
+	}
+	e.ServeHTTP(context.Background(), ctx)
+	zz.Cover("reached-assert", true)
+	same := len(tr) == len(want)
+	if same {
+		for i := range tr {
+			if tr[i] != want[i] {
+				same = false
+			}
+		}
+	}
+	zz.Assert("own-group-middleware-not-the-siblings", same)
+}
